@@ -11,8 +11,10 @@ Definition epub (s : st) : bool := Nat.eqb (mode s) 3.
 Definition multi (s : st) : bool := Nat.eqb (mode s) 2 || epub s.
 Definition suffix (s : st) : str := if epub s then R ".xhtml" else R ".html".
 Definition dec2 (n : nat) : str := if Nat.ltb n 10 then R "0" ++ dec n else dec n.
+Definition custom_file_names (s : st) : bool := truthy (assoc (R "xhtml-chap-custom-filenames") (params s)).
+Definition has_slash (x : str) : bool := existsb (N.eqb 47) x.
 Definition chapname (s : st) : str :=
-  let idt := if truthy (assoc (R "xhtml-chap-custom-filenames") (params s)) then cid s else [] in
+  let idt := if custom_file_names s && negb (has_slash (cid s)) then cid s else [] in
   match idt with [] => dec (pcount (toc s)) ++ R "-" ++ dec2 (ccount (toc s)) | _ => idt end.
 Definition fprefix (s : st) : str := match assoc (R "xhtml-chap-prefix") (params s) with Some p => p | None => R "body" end.
 Definition gen_ref_s (s : st) (prefix id : str) (hasfile : bool) : str :=
@@ -101,6 +103,7 @@ Definition go_up (s : st) : str :=
 Definition file_change (title : str) (s : st) : st :=
   let s1 := if epub s then s else match navtext s with [] => s | n => (wo n s) <| navtext := [] |> end in
   let s2 := wo doc_footer s1 in
+  let s2 := if custom_file_names s2 && has_slash (cid s2) then err "id contains a path separator and cannot be used as file name" s2 else s2 in
   let name := (if epub s2 then R "EPUB/" else []) ++ fprefix s2 ++ R "-" ++ chapname s2 ++ suffix s2 in
   let s3 := s2 <| files ::= fun l => l ++ [(curfile s2, wout s2)] |> <| wout := [] |> <| curfile := name |> in
   let s4 := wo (doc_header title s3) s3 in
@@ -180,7 +183,7 @@ Definition img_src (image : str) (s : st) : str :=
 Definition figure_image (image caption link alt : str) (s : st) : st :=
   let u := img_src image s in
   let lk := if epub s then [] else process_link link in
-  let alt1 := match alt, caption with [], (_ :: _) => caption | _, _ => alt end in
+  let alt1 := match alt, caption with [], (_ :: _) => caption | _, _ => html_escape alt end in
   let img := R "<img src=""" ++ u ++ R """ alt=""" ++ alt1 ++ R """ />" in
   w (R "<div id=""fig" ++ dec (fig s) ++ R """ class=""figure"">" ++ NLs ++
      (match lk with [] => R "  " ++ img ++ NLs | _ => R "  <a href=""" ++ lk ++ R """>" ++ img ++ R "</a>" ++ NLs end) ++
@@ -189,7 +192,7 @@ Definition figure_image (image caption link alt : str) (s : st) : st :=
 Definition inline_image (image link id punct alt : str) (s : st) : st :=
   let u := img_src image s in
   let lk := if epub s then [] else process_link link in
-  let img := R "<img src=""" ++ u ++ R """ alt=""" ++ alt ++ R """" ++ idattr id ++ R " />" in
+  let img := R "<img src=""" ++ u ++ R """ alt=""" ++ html_escape alt ++ R """" ++ idattr id ++ R " />" in
   w (match lk with [] => img ++ punct | _ => R "<a href=""" ++ lk ++ R """>" ++ img ++ R "</a>" ++ punct end) s.
 Definition lk_with_label (uri label punct : str) := w (R "<a href=""" ++ html_escape (url_norm uri) ++ R """>" ++ label ++ R "</a>" ++ punct).
 Definition lk_without_label (uri punct : str) := lk_with_label uri (html_escape uri) punct.
@@ -262,7 +265,7 @@ Definition toc_string (d : dialect) (opts : popts) (s : st) : option str * st :=
       let a1 :=
         if Nat.eqb (tw_level a) 0%nat then mkTw 1%nat tl (tw_out a) false
         else if Nat.ltb (tw_prev a) tl then
-          mkTw (tw_level a + (tl - tw_prev a))%nat tl
+          mkTw (S (tw_level a)) tl
                (tw_out a ++ match d with DXhtml => spaces2 (S (tw_level a)) ++ R "<ul>" ++ NLs | DNav => spaces2 (S (tw_level a)) ++ R "<ol>" ++ NLs | DNcx => [] end) false
         else if Nat.ltb tl (tw_prev a) then
           let k := Nat.min (tw_prev a - tl)%nat (tw_level a - 1)%nat in
